@@ -33,6 +33,7 @@ def reqStr : Req → String
   | .getXR => "get XThing/xr"
   | .addFinalizer _ => "update XThing/xr"
   | .getObj k n => s!"get {k}/{n}"
+  | .getCached k n => s!"get {k}/{n}"   -- the call log does not tell a cached from a live Get
   | .gcUpdate k n => s!"update {k}/{n}"
   | .delete k n => s!"delete {k}/{n}"
   | .patchRefs _ _ => "patch XThing/xr apply"
@@ -93,6 +94,9 @@ def handler : Handler := fun scn => do
         let f := obj rd "fault"
         Plan.at (nat f "k") (outcomeOf (str f "o"))
       else Plan.allOk
+    -- composed resources missing from the informer cache during this reconcile (absent = none)
+    let miss : List Ref := (arr rd "miss").map fun j => ⟨str j "kind", str j "name"⟩
+    st := { st with miss := miss }
     let prog := reconcile m
     let log := callLog sem plan 0 prog st
     let res := run sem plan 0 prog st
